@@ -28,12 +28,25 @@ mod fix {
         #[derive(Identifiable)]
         #[stable_type_id_crate(qbice_stable_type_id)]
         pub struct Same;
+        /// a GENERIC type with the same name in two modules (the derive has a separate code path for generics)
+        #[derive(Identifiable)]
+        #[stable_type_id_crate(qbice_stable_type_id)]
+        pub struct SameGen<T>(pub T);
+        #[derive(Identifiable)]
+        #[stable_type_id_crate(qbice_stable_type_id)]
+        pub enum SameEnum<A, B> { L(A), R(B) }
     }
     pub mod b {
         use qbice_stable_type_id::Identifiable;
         #[derive(Identifiable)]
         #[stable_type_id_crate(qbice_stable_type_id)]
         pub struct Same;
+        #[derive(Identifiable)]
+        #[stable_type_id_crate(qbice_stable_type_id)]
+        pub struct SameGen<T>(pub T);
+        #[derive(Identifiable)]
+        #[stable_type_id_crate(qbice_stable_type_id)]
+        pub enum SameEnum<A, B> { L(A), R(B) }
     }
 }
 
